@@ -219,9 +219,9 @@ MaybeCommit(n, st) ==                      \* <<changed?, n'>>
     LET mci == MaximalCommitted(n)
     IN IF mci # Inf /\ (LMaybeCommit(n.log, st, mci, n.term)
                         \/ (Ab("CommitTermCheck") /\ mci > n.log.committed /\ mci <= Last_(n, st)))
-       THEN IF LCommitToFatal(n.log, st, mci) \/ n.id \notin DOMAIN n.pr THEN <<TRUE, Panic(n)>>
+       THEN IF LCommitToFatal(n.log, st, mci) THEN <<TRUE, Panic(n)>>
             ELSE LET n1 == SetLog(n, LCommitTo(n.log, mci))
-                 IN <<TRUE, [n1 EXCEPT !.pr[n.id] = PrUpdateCommitted(@, mci)]>>
+                 IN <<TRUE, IF n.id \in DOMAIN n.pr THEN [n1 EXCEPT !.pr[n.id] = PrUpdateCommitted(@, mci)] ELSE n1>>
        ELSE <<FALSE, n>>
 HasPendingConf(n) == n.pci > n.log.applied
 ShouldBcastCommit(n) == ~n.skipBcastCommit \/ HasPendingConf(n)
@@ -630,7 +630,7 @@ OnPersistEntries(n, st, c, index, term) ==
     LET lg == LMaybePersist(n.log, st, index, term)
         n1 == SetLog(n, lg)
     IN IF lg # n.log /\ n1.role = "L"
-       THEN IF n.id \notin DOMAIN n1.pr THEN Panic(n1)
+       THEN IF n.id \notin DOMAIN n1.pr THEN n1       \* a removed leader has no progress of its own
             ELSE LET u == PrMaybeUpdate(n1.pr[n.id], index)
                      n2 == [n1 EXCEPT !.pr[n.id] = u[2]]
                  IN IF ~u[1] THEN n2
